@@ -154,13 +154,15 @@ def apply_op(obj, op, toks):
     elif k in ("red", "ds"):
         if k == "red":
             ids = H.red_ids(op, n)
-            if not ids:                      # the derived object stays non-empty in these scenarios
-                ids = [0] if n else []
+            if not ids or any(i < -n or i >= n for i in ids):    # the derived object stays non-empty; no refused calls here
+                ids = [0, -1] if n else []
+            signed = ids
+            ids = [i % n for i in ids] if n else []       # the heap model indexes with naturals: Python's i % n, done here
         else:
             N = max(1, op["n"])
             ids = [int(i) for i in np.linspace(0, n - 1, N, dtype=int)] if n > N else None
         if ids is not None:
-            obj.reduce_to_ids(ids)
+            obj.reduce_to_ids(signed if k == "red" else ids)
             toks.append(f"red {core.natlist(ids)}")
     elif k == "mf":
         try:
